@@ -145,8 +145,10 @@ pub(crate) fn ntt_inv<F: NttFriendlyFieldElement>(
     inp: &[F],
     size: usize,
 ) -> Result<(), NttError> {
-    let size_inv = F::from(F::Integer::try_from(size).unwrap()).inv();
+    // Validate `size` (via the forward transform) before converting it to a field integer, so that
+    // an oversized `size` is reported as an error rather than panicking in the conversion.
     ntt(outp, inp, size)?;
+    let size_inv = F::from(F::Integer::try_from(size).unwrap()).inv();
     ntt_inv_finish(outp, size, size_inv);
     Ok(())
 }
